@@ -3,7 +3,7 @@
 From Coq Require Import List String Bool ZArith.
 From Helm Require Import Common.Assoc Engine.Types Engine.Eff Engine.Ops Engine.Cluster Engine.Seq
                          Engine.DryRun Engine.Ownership Engine.OwnershipProofs Engine.OwnershipCalls
-                         Engine.OwnershipConfine Engine.OwnershipStamped.
+                         Engine.OwnershipConfine Engine.OwnershipStamped Engine.OwnershipLookup.
 Import ListNotations.
 Local Open Scope string_scope.
 
@@ -50,6 +50,45 @@ Theorem C07_refuse_before_mutation_upgrade :
     fst (fst (run_store_op rn ns (mkOp (OpUpgrade fl cid vid mani hks) sf cf) w)) = w.
 Proof. exact refuse_upgrade. Qed.
 Print Assumptions C07_refuse_before_mutation_upgrade.
+
+(* A FAILED ownership look-up is a refusal too.  Fault plan: the API server rejects the GET of
+   [key] (cf_k = Some (VGet, key)).  If [key] is the key of a manifest resource, install and
+   install --replace — every flags record, take-ownership on or off, atomic or not, whatever
+   object sits at the key (foreign, partially labelled, owned, none) — end in the conflict error
+   (or the earlier name-in-use error), with an empty trace and an unchanged world: nothing is
+   recorded, created or (by an atomic clean-up) deleted. *)
+Theorem C07_refuse_when_lookup_fails :
+  forall (rn ns : string) (fl : flags) (cid vid : nat) (mani : list res) (hks : list hook)
+         (sf : sfaults) (cf : cfaults) (w : world) (key : string),
+    cf_k cf = Some (VGet, key) -> f_client_only fl = false -> In key (map rkey mani) ->
+    (snd (fst (run_store_op rn ns (mkOp (OpInstall fl cid vid mani hks) sf cf) w)) = OErr EConflict \/
+     (snd (fst (run_store_op rn ns (mkOp (OpInstall fl cid vid mani hks) sf cf) w)) = OErr ENameInUse /\
+      f_dry_run fl = false /\
+      match max_rev_of (w_led w) with
+      | None => true
+      | Some last => f_replace fl && (status_eqb (st last) SUninstalled || status_eqb (st last) SFailed)
+      end = false)) /\
+    snd (run_store_op rn ns (mkOp (OpInstall fl cid vid mani hks) sf cf) w) = [] /\
+    fst (fst (run_store_op rn ns (mkOp (OpInstall fl cid vid mani hks) sf cf) w)) = w.
+Proof. exact refuse_install_lookup. Qed.
+Print Assumptions C07_refuse_when_lookup_fails.
+
+(* upgrade: [key] is the key of a target resource that is not in the manifest of the revision
+   the upgrade starts from *)
+Theorem C07_refuse_when_lookup_fails_upgrade :
+  forall (rn ns : string) (fl : flags) (cid vid : nat) (mani : list res) (hks : list hook)
+         (sf : sfaults) (cf : cfaults) (w : world) (key : string),
+    cf_k cf = Some (VGet, key) ->
+    (forall cur, upgrade_current (w_led w) = Some cur ->
+       In key (map rkey (filter (fun r => negb (in_keys (rkey r) (manifest cur))) mani))) ->
+    (snd (fst (run_store_op rn ns (mkOp (OpUpgrade fl cid vid mani hks) sf cf) w)) = OErr EConflict \/
+     ((snd (fst (run_store_op rn ns (mkOp (OpUpgrade fl cid vid mani hks) sf cf) w)) = OErr ENoDeployed \/
+       snd (fst (run_store_op rn ns (mkOp (OpUpgrade fl cid vid mani hks) sf cf) w)) = OErr EPending) /\
+      upgrade_current (w_led w) = None)) /\
+    snd (run_store_op rn ns (mkOp (OpUpgrade fl cid vid mani hks) sf cf) w) = [] /\
+    fst (fst (run_store_op rn ns (mkOp (OpUpgrade fl cid vid mani hks) sf cf) w)) = w.
+Proof. exact refuse_upgrade_lookup. Qed.
+Print Assumptions C07_refuse_when_lookup_fails_upgrade.
 
 (* ---- stamping ---- *)
 
@@ -188,6 +227,21 @@ Example C07_deletes_example :
                               (mkSF None None) (mkCF None None false)) w)) = ["ConfigMap/b"].
 Proof. vm_compute. reflexivity. Qed.
 Print Assumptions C07_deletes_example.
+
+(* a rejected look-up of a foreign object under install --atomic with take-ownership: refused,
+   nothing written, the foreign object still there; without the fault the same install adopts it *)
+Example C07_lookup_fails_example :
+  let w := mkW [] [("ConfigMap/a", [("d:k", "live")])] in
+  let fl := mkFlags true false false false 0 false false false true 0 in
+  let run kf := run_store_op "rel" "default"
+                  (mkOp (OpInstall fl 1 1 [mkRes "ConfigMap" "a" [("d:k", "v")]; mkRes "ConfigMap" "b" [("d:k", "v")]] [])
+                        (mkSF None None) (mkCF kf None false)) w in
+  snd (fst (run (Some (VGet, "ConfigMap/a")))) = OErr EConflict /\
+  snd (run (Some (VGet, "ConfigMap/a"))) = [] /\
+  fst (fst (run (Some (VGet, "ConfigMap/a")))) = w /\
+  snd (fst (run None)) = OOk.
+Proof. vm_compute. repeat split; reflexivity. Qed.
+Print Assumptions C07_lookup_fails_example.
 
 (* C07_crd_caveat (prose): the quantifier of C07_refuse_before_mutation ranges over manifests.
    A chart's crds/ directory is outside the model: Install.RunWithContext calls installCRDs
